@@ -1,6 +1,5 @@
 package verifsim
 
-func genLost(r *rng, i int) *Spec         { return genSmoke(r) }
 func genMaintenance(r *rng, i int) *Spec  { return genSmoke(r) }
 func genCascade(r *rng, i int) *Spec      { return genSmoke(r) }
 func genOffline(r *rng, i int) *Spec      { return genSmoke(r) }
